@@ -23,6 +23,8 @@ RULE = ("lock-step episodes on ConstBitStream / BitStream from every initial (co
         "another pos; the (bits, pos) model runs beside the real object and value, exception class and pos "
         "are compared after every step. key = (op, token kind, remaining-bits class, outcome); non-trivial = "
         "non-empty stream")
+# the bytealigned option only decides what find/rfind/readto look for when they are not told; every fourth case runs with it on
+AMBIENT = ['bytealigned']
 ANCHORS = ['ConstBitStream.read', 'ConstBitStream.readlist', 'ConstBitStream.peek', 'ConstBitStream.peeklist',
            'ConstBitStream.readto', 'ConstBitStream.bytealign', 'ConstBitStream._setbitpos', 'ConstBitStream._getbytepos',
            'ConstBitStream._setbytepos', 'ConstBitStream.find', 'ConstBitStream.rfind', 'BitStream.__iadd__',
@@ -293,7 +295,7 @@ def step(ctx, s, m, pos, st, case, cname):
     elif op in ('find', 'rfind', 'readto'):
         spec, ba = st[1], st[2]
         p = spec[1]
-        eff = bool(ba)
+        eff = bool(bitstring.options.bytealigned) if ba is None else bool(ba)
         P = util.build_operand(spec)
         if op == 'readto':
             kind, got = call(lambda: s.readto(P, bytealigned=ba))
